@@ -46,6 +46,8 @@ def _response(status, ct_i, body, nfields, lf_only):
         lines.append(b'Content-Type: ' + ct.encode())
     if nfields >= 2:
         lines.append(b'X-A: b')
+    if nfields >= 3:
+        lines.append(b'Set-Cookie: big=' + b'v' * 5000)          # a header block larger than 4 KiB (the client accepts up to 32 KiB)
     lines.append(b'Content-Length: ' + str(len(body)).encode())
     return eol.join(lines) + eol + eol + body, ct
 
@@ -99,8 +101,8 @@ def _cdx_ranges(body, compress, rollover, appending, nsessions, status_i, ct_i, 
         pd = warcenv.field(r, 'WARC-Payload-Digest')
         if l['k'] != (pd.replace('sha1:', '', 1) if pd else '-'):
             return False
-        if l['a'] in urls:
-            # status code and MIME type of the archived response
+        if l['a'] in urls and nfields < 3:
+            # status code and MIME type of the archived response (header blocks > 4 KiB: known finding D14, see cdx_big_header)
             want_mime = '-'
             if ct:
                 head = ct.split(';')[0].strip()
@@ -116,6 +118,18 @@ def _cdx_ranges(body, compress, rollover, appending, nsessions, status_i, ct_i, 
     with nosym():
         back = list(read_cdx(io.BytesIO(bytes(fs.files['out.cdx']))))
     return len(back) == len(lines) and all(b['u'] == l['u'] and b['V'] == l['V'] and b['g'] == l['g'] and b['k'] == l['k'] for b, l in zip(back, lines))
+
+
+def _cdx_big_header(status_i, ct_i):
+    """D14: status and MIME type of a response whose header block exceeds 4 KiB."""
+    status = pick(_STATUS, status_i)
+    fs = fakefs.FS()
+    rec = warcenv.new_recorder(fs, cdx=True)
+    wire, ct = _response(status, ct_i, b'x', 3, False)
+    warcenv.http_exchange(rec, 'http://h.example/big', wire, [])
+    rec.close()
+    lines = _cdx_lines(fs)
+    return lines is not None and len(lines) == 1 and lines[0]['s'] == str(status)
 
 
 def _get_http_header(status_i, ct_i, nfields, lf_only, body):
@@ -144,11 +158,12 @@ def _fx(**kw):
 HARNESSES = [
     H('cdx_ranges', '_cdx_ranges',
       'body: bytes, compress: bool, rollover: bool, appending: bool, nsessions: int, status_i: int, ct_i: int, nfields: int, lf_only: bool, cut: int',
-      pre=['len(body) <= 1 and 1 <= nsessions <= 2 and 0 <= status_i <= 4 and 0 <= ct_i <= 6 and 0 <= nfields <= 2 and 0 <= cut <= 1'],
+      pre=['len(body) <= 1 and 1 <= nsessions <= 2 and 0 <= status_i <= 4 and 0 <= ct_i <= 6 and 0 <= nfields <= 3 and 0 <= cut <= 1'],
       parts={'quick': [{'tag': t, 'fix': fx} for t, fx in (
           ('plain', _fx(compress=False, rollover=False, appending=False, nsessions=1, status_i=0, nfields=1, lf_only=False, cut=0)),
           ('gz_roll', _fx(compress=True, rollover=True, appending=False, nsessions=2, status_i=1, ct_i=2, nfields=2, lf_only=False)),
           ('append', _fx(compress=False, rollover=False, appending=True, nsessions=1, status_i=2, ct_i=1, nfields=0, lf_only=True)),
+          ('bighdr', dict(_fx(compress=True, rollover=False, appending=False, nsessions=1, nfields=3, lf_only=False, cut=0), body="b'x'")),
           ('append_gz_roll', _fx(compress=True, rollover=True, appending=True, nsessions=2, status_i=0, ct_i=0, nfields=1, lf_only=False, cut=0)))],
              'thorough': [{'tag': 'z%d_r%d_a%d_n%d' % (z, r, a, n), 'fix': _fx(compress=bool(z), rollover=bool(r), appending=bool(a), nsessions=n)}
                           for z in (0, 1) for r in (0, 1) for a in (0, 1) for n in (1, 2)]},
@@ -160,6 +175,10 @@ HARNESSES = [
       doc='for every CDX line the byte range (file, offset, length) is exactly one complete response record / gzip member of that file with '
           'the same record id, URL and payload checksum; one line per response record and none for others; status and MIME are those of the '
           'archived response (multi-line headers, any Content-Type); compressed / rolled-over / appended output; read_cdx reads it back'),
+    H('cdx_big_header', '_cdx_big_header', 'status_i: int, ct_i: int', pre=['0 <= status_i <= 1 and 1 <= ct_i <= 2'],
+      timeout={'quick': 90, 'thorough': 90}, finding='D14', samples=[],
+      funcs=['wpull/warc/format.py:WARCRecord.get_http_header'],
+      doc='status/MIME of a response whose header block is larger than 4 KiB (expected to fail: D14)'),
     H('get_http_header', '_get_http_header', 'status_i: int, ct_i: int, nfields: int, lf_only: bool, body: bytes',
       pre={'quick': ['0 <= status_i <= 2 and 0 <= ct_i <= 6 and 0 <= nfields <= 2 and len(body) <= 1'], 'thorough': ['0 <= status_i <= 4 and 0 <= ct_i <= 6 and 0 <= nfields <= 2 and len(body) <= 2']},
       timeout={'quick': 200, 'thorough': 600},
